@@ -65,6 +65,18 @@ def router_check(pid, tier):
         for v in server_part["viol"]:
             if pid in v["props"]:
                 viols.append(dict(v, router="server", kind="server:" + v["kind"], schedule=None, trace=v.get("context", [])))
+    sd_part = None
+    if pid == "C16":
+        # Server::shutdown itself (lock order, close-then-join) and the real signal path
+        import e2e_checks
+        sd_part = e2e_checks.shutdown_pipeline(tier)
+        if not sd_part["model_ok"]:
+            raise ToolError("TLC reports ServerLife violates its properties:\n" + sd_part["model_tail"])
+        for v in sd_part["viol"]:
+            if pid in v["props"]:
+                viols.append(dict(v, router="server", kind="shutdown:" + v["kind"], schedule=None, trace=v.get("context", [])))
+        for n in sd_part["inconclusive"][:5]:
+            log("NOTE shutdown run=%s line=%s inconclusive: %s" % (n["run"], n["line"], n["what"]))
     if pid == "C01":
         # the same schedules at system level: real publishers and subscribers on one topic
         fan_part = e2e_checks.fanout_pipeline(tier)
@@ -83,8 +95,8 @@ def router_check(pid, tier):
     cov = {
         "states": sum(r["model"]["states"] for r in results),
         "transitions": sum(r["model"]["transitions"] for r in results),
-        "traces_validated_against_impl": sum(r["runs"] for r in results) + (fan_part["runs"] if fan_part else 0),
-        "events_validated": sum(r["events"] for r in results) + (fan_part["events"] if fan_part else 0),
+        "traces_validated_against_impl": sum(r["runs"] for r in results) + (fan_part["runs"] if fan_part else 0) + (sd_part["runs"] if sd_part else 0),
+        "events_validated": sum(r["events"] for r in results) + (fan_part["events"] if fan_part else 0) + (sd_part["events"] if sd_part else 0),
         "exhaustive": True,
         "models": [{k: m[k] for k in ("module", "cfg", "states", "transitions", "depth", "wall_s",
                                        "action_coverage", "actions_never_taken")} for r in results for m in r["models"]],
@@ -98,6 +110,9 @@ def router_check(pid, tier):
         "samples": [s for r in results for s in r["samples"]][:4],
         "server_level": ({"name_isolation_pairs": 6, "concurrent_first_registration_rounds": e2e_checks.TIERS[tier]["race"],
                           "events_validated": server_part["events"], "models": server_part["models"]} if server_part else None),
+        "system_level_shutdown": ({k: sd_part[k] for k in ("models", "cases_total", "cases_used", "stalled_cases", "events", "listen_returned",
+                                                            "listen_hung_with_a_peer_that_does_not_read", "n_viol", "n_inconclusive", "sample", "wall_s")}
+                                  if sd_part else None),
         "system_level_fanout": ({k: fan_part[k] for k in ("schedules_from_model", "distinct_after_projection", "model_schedules_used",
                                                            "random_schedules", "runs", "events", "deliveries_checked", "n_viol",
                                                            "n_inconclusive", "sample", "wall_s")} if fan_part else None),
